@@ -175,7 +175,6 @@ func (e *Env) objLocs(ref string, t types.Type) []modLoc {
 func (vc *FnVC) evalModifies(env *Env) {
 	if vc.fc.ModifiesAll {
 		vc.modAll = true
-		return
 	}
 	for _, cl := range vc.fc.Modifies {
 		for _, l := range cl.Locs {
@@ -547,7 +546,8 @@ func describeCallee(c *ssa.CallCommon) string {
 // unknownCall: a callee without contract: everything may change (DESIGN.md 2.5 case 3).
 func (vc *FnVC) unknownCall(what string, sig *types.Signature, st *State) []Val {
 	vc.unmodelled[what] = true
-	vc.havocAll(st)
+	vc.enc.usedAssumptions["calls without a contract preserve ghost state (they model entities such callees cannot reach; A3)"] = true
+	vc.havocAll(st, true)
 	return vc.freshResults(sig, st, "r")
 }
 
@@ -614,9 +614,21 @@ func (vc *FnVC) applyContract(fc *FuncContract, sig *types.Signature, args []Val
 	pre := st.clone()
 	// havoc
 	if fc.ModifiesAll {
-		vc.havocAll(st)
-	} else {
-		if !fc.Pure {
+		vc.havocAll(st, true)
+		// locations the callee is proved (call-graph scan) to leave alone
+		for _, cl := range fc.Preserves {
+			for _, loc := range cl.Locs {
+				if _, isGhost := vc.prog.cs.Ghosts[loc]; isGhost {
+					continue
+				}
+				for _, c := range env.compsOfLocSpec(loc) {
+					st.comp[c] = vc.cur(pre, c)
+				}
+			}
+		}
+	}
+	{
+		if !fc.Pure && !fc.ModifiesAll {
 			a := vc.alloc(st)
 			n := vc.havocComp(st, "alloc")
 			vc.assume("(>= " + n + " " + a + ")")
@@ -664,20 +676,53 @@ func (vc *FnVC) applyContract(fc *FuncContract, sig *types.Signature, args []Val
 	for _, cl := range fc.Ensures {
 		vc.assume(vc.trBool(cl.E, &post))
 	}
+	// ghost assignments performed by the callee at return
+	for _, cl := range fc.Records {
+		g, ok := vc.prog.cs.Ghosts[cl.Name]
+		if !ok {
+			panic(unsupported("records: unknown ghost variable " + cl.Name))
+		}
+		comp, gsort, _ := post.ghostComp(g)
+		v := post.tr(cl.E)
+		if v.Sort != gsort {
+			panic(unsupported("records: sort mismatch for " + cl.Name))
+		}
+		vc.frameCheckCall(pre, modLoc{comp: comp}, label)
+		vc.setComp(st, comp, v.S)
+	}
 	return results
 }
 
 // frameCheckCall: a callee's write must be within the caller's own frame.
 func (vc *FnVC) frameCheckCall(pre *State, m modLoc, label string) {
-	if vc.fc == nil || vc.modAll {
+	if vc.fc == nil {
 		return
 	}
-	if strings.HasPrefix(m.comp, "Ghost$") {
+	if isGhostComp(m.comp) {
+		// ghost state may change only when the caller's own contract names it
 		for _, mm := range vc.modset {
 			if mm.comp == m.comp {
+				if mm.ref == "" {
+					return
+				}
+			}
+		}
+		for _, cl := range vc.fc.Records {
+			if "Ghost$"+cl.Name == m.comp {
 				return
 			}
 		}
+		var alts []string
+		for _, mm := range vc.modset {
+			if mm.comp == m.comp && m.ref != "" {
+				alts = append(alts, eq(m.ref, mm.ref))
+			}
+		}
+		vc.oblige("frame", m.comp+"@"+label, or(alts...), vc.fnTags(), "callee modifies ghost state the caller's contract does not name")
+		return
+	}
+	if vc.modAll {
+		return
 	}
 	vc.frameCheck(pre, m.comp, m.ref)
 }
@@ -714,9 +759,23 @@ func (vc *FnVC) invokeCandidates(c *ssa.CallCommon) ([]invokeCand, *FuncContract
 		if n.Obj().Pkg() != nil {
 			pk = n.Obj().Pkg().Path()
 		}
-		for _, key := range []string{pk + "::(" + n.Obj().Name() + ")." + m, "::(" + pk + "." + n.Obj().Name() + ")." + m} {
+		pname := ""
+		if n.Obj().Pkg() != nil {
+			pname = n.Obj().Pkg().Name()
+		}
+		for _, key := range []string{pk + "::(" + n.Obj().Name() + ")." + m, "::(" + pk + "." + n.Obj().Name() + ")." + m, "::(" + pname + "." + n.Obj().Name() + ")." + m} {
 			if fc := vc.prog.cs.Funcs[key]; fc != nil && fc.Kind == "iface" {
 				generic = fc
+			}
+		}
+		if generic == nil {
+			// declared by a module package that uses the interface
+			suffix := "::(" + pname + "." + n.Obj().Name() + ")." + m
+			for _, id := range sortedKeys(vc.prog.cs.Funcs) {
+				if fc := vc.prog.cs.Funcs[id]; fc.Kind == "iface" && strings.HasSuffix(id, suffix) {
+					generic = fc
+					break
+				}
 			}
 		}
 		if generic == nil && n.Obj().Pkg() == nil {
@@ -752,7 +811,11 @@ func (vc *FnVC) embeddedIfaceContract(iface *types.Interface, m string) *FuncCon
 		if n.Obj().Pkg() != nil {
 			pk = n.Obj().Pkg().Path()
 		}
-		for _, key := range []string{pk + "::(" + n.Obj().Name() + ")." + m, "::(" + pk + "." + n.Obj().Name() + ")." + m} {
+		pname := ""
+		if n.Obj().Pkg() != nil {
+			pname = n.Obj().Pkg().Name()
+		}
+		for _, key := range []string{pk + "::(" + n.Obj().Name() + ")." + m, "::(" + pk + "." + n.Obj().Name() + ")." + m, "::(" + pname + "." + n.Obj().Name() + ")." + m} {
 			if fc := vc.prog.cs.Funcs[key]; fc != nil && fc.Kind == "iface" {
 				return fc
 			}
@@ -842,10 +905,19 @@ func (vc *FnVC) mergeCaseStates(pre *State, outs []*State, guards []string) *Sta
 			sameEpoch = false
 		}
 	}
-	st := &State{epoch: outs[0].epoch, comp: map[string]string{}}
+	for _, o := range outs {
+		if o.gepoch != outs[0].gepoch {
+			sameEpoch = false
+		}
+	}
+	st := &State{epoch: outs[0].epoch, gepoch: outs[0].gepoch, comp: map[string]string{}}
 	if !sameEpoch {
 		vc.epochCtr++
 		st.epoch = vc.epochCtr
+		st.gepoch = vc.epochCtr
+		for _, o := range outs {
+			vc.materialize(o)
+		}
 	}
 	keys := map[string]bool{}
 	for _, o := range outs {
